@@ -33,7 +33,7 @@ func preludeFor(pkgName string) ([]byte, error) {
 // httpPreludeFor returns the net/http models for packages that deal with HTTP (nil otherwise).
 func httpPreludeFor(pkgDir, pkgName string) []byte {
 	switch pkgDir {
-	case "cmd/rdpgw/web", "cmd/rdpgw/protocol", "cmd/rdpgw/kdcproxy":
+	case "cmd/rdpgw/web", "cmd/rdpgw/protocol", "cmd/rdpgw/kdcproxy", "cmd/rdpgw":
 	default:
 		return nil
 	}
